@@ -38,6 +38,9 @@ GEN_TABLES = {
              {"nw": 3, "kind": "pause", "del": True, "maxfail": 1, "async": False}),
     "wait": (dict(M.BASE, NT=3, Kind="pause", MaxRep=2, MaxRuns=2, Wait=True, FailB=1, R3=False, R13=False),
              {"nw": 2, "kind": "pause", "del": True, "maxfail": 1, "wait": True}),
+    # the failure limit is exceeded while other trials are still running, and the loop waits for them before it ends
+    "wait_fail": (dict(M.BASE, NT=4, Kind="stop", MaxRep=2, MaxRuns=1, Wait=True, FailB=2, MaxFail=0, R3=False, R13=False),
+                  {"nw": 2, "kind": "stop", "del": True, "maxfail": 0, "wait": True}),
     "nw1": (dict(M.BASE, NT=3, NW=1, Kind="pause", MaxRep=3, MaxRuns=3, FailB=1, MaxFail=0, R3=False, R13=False),
             {"nw": 1, "kind": "pause", "del": True, "maxfail": 0}),
     # start_jobs_without_delay = False: the number of free workers is asked from the back-end
